@@ -17,6 +17,7 @@
 package resolver
 
 import (
+	"errors"
 	"fmt"
 	"net/http"
 	"time"
@@ -98,6 +99,24 @@ func RegistryHostsFromConfig(cfg Config, credsFuncs ...Credential) source.Regist
 					default:
 						return nil, fmt.Errorf("invalid type %v for header %q", ty, key)
 					}
+				}
+			}
+			if len(header) > 0 {
+				// The HTTP client behind the retryable round tripper follows redirects by itself
+				// and copies the request headers to the new location. The headers configured
+				// for this host must not be forwarded to another host (e.g. the storage backend
+				// a blob request is redirected to).
+				configured := header
+				client.HTTPClient.CheckRedirect = func(req *http.Request, via []*http.Request) error {
+					if len(via) >= 10 {
+						return errors.New("stopped after 10 redirects")
+					}
+					if len(via) > 0 && req.URL.Host != via[0].URL.Host {
+						for key := range configured {
+							req.Header.Del(key)
+						}
+					}
+					return nil
 				}
 			}
 			config := docker.RegistryHost{
